@@ -159,7 +159,9 @@ type Tree struct {
 	// NoUtxo switches the UTXO bookkeeping off (coinbase-only trees of many
 	// blocks for index/header checks).
 	NoUtxo bool
-	nonce  uint64
+	// OddScripts: see TreeCfg.
+	OddScripts bool
+	nonce      uint64
 }
 
 // NewTree creates a tree holding only the genesis block of the parameters.
@@ -357,25 +359,83 @@ func merkleRoot(txs []*wire.MsgTx) chainhash.Hash {
 	return level[0]
 }
 
-// requiredBits is the model's next-required-difficulty for the families used
-// here (no retarget boundary is ever reached).
+// requiredBits is the model's next-required-difficulty (GetNextWorkRequired
+// as specified for Bitcoin and its test networks).
 func (t *Tree) requiredBits(parent *Node, ts int64) uint32 {
 	p := t.Params
 	if p.PoWNoRetargeting {
 		return p.PowLimitBits
 	}
-	if !p.ReduceMinDifficulty {
-		return parent.Msg.Header.Bits
-	}
-	if ts > parent.Time()+int64(p.MinDiffReductionTime/time.Second) {
-		return p.PowLimitBits
-	}
-	it := parent
 	iv := int32(p.TargetTimespan / p.TargetTimePerBlock)
-	for it.Parent != nil && it.Height%iv != 0 && it.Msg.Header.Bits == p.PowLimitBits {
-		it = it.Parent
+	if (parent.Height+1)%iv != 0 {
+		if !p.ReduceMinDifficulty {
+			return parent.Msg.Header.Bits
+		}
+		if ts > parent.Time()+int64(p.MinDiffReductionTime/time.Second) {
+			return p.PowLimitBits
+		}
+		it := parent
+		for it.Parent != nil && it.Height%iv != 0 && it.Msg.Header.Bits == p.PowLimitBits {
+			it = it.Parent
+		}
+		return it.Msg.Header.Bits
 	}
-	return it.Msg.Header.Bits
+	// retarget height: the time the closing period took, clamped to [timespan/f, timespan*f]
+	first := parent.Ancestor(parent.Height - (iv - 1))
+	span := int64(p.TargetTimespan / time.Second)
+	actual := parent.Time() - first.Time()
+	if lo := span / p.RetargetAdjustmentFactor; actual < lo {
+		actual = lo
+	}
+	if hi := span * p.RetargetAdjustmentFactor; actual > hi {
+		actual = hi
+	}
+	old := compactToBig(parent.Msg.Header.Bits)
+	if p.EnforceBIP94 {
+		old = compactToBig(first.Msg.Header.Bits)
+	}
+	nt := new(big.Int).Mul(old, big.NewInt(actual))
+	nt.Quo(nt, big.NewInt(span))
+	if nt.Cmp(p.PowLimit) > 0 {
+		nt.Set(p.PowLimit)
+	}
+	return bigToCompact(nt)
+}
+
+// RequiredBits exposes the model's required difficulty for a block on parent
+// with timestamp ts.
+func (t *Tree) RequiredBits(parent *Node, ts int64) uint32 { return t.requiredBits(parent, ts) }
+
+// AltBits lists difficulty values that plausible WRONG rules would ask for at
+// this position (the parent's bits, the minimum difficulty, the retarget
+// computed from the other end of the period); values equal to the required
+// bits are left out.
+func (t *Tree) AltBits(parent *Node, ts int64) []uint32 {
+	req := t.requiredBits(parent, ts)
+	alts := []uint32{parent.Msg.Header.Bits, t.Params.PowLimitBits}
+	if !t.Params.PoWNoRetargeting {
+		cp := *t.Params
+		cp.EnforceBIP94 = !cp.EnforceBIP94
+		alts = append(alts, (&Tree{Params: &cp}).requiredBits(parent, ts))
+		// the rule of a non-retarget height applied at a retarget height and vice versa
+		iv := int32(cp.TargetTimespan / cp.TargetTimePerBlock)
+		if (parent.Height+1)%iv == 0 && parent.Parent != nil {
+			cp2 := *t.Params
+			cp2.TargetTimespan *= 1 << 20 // no retarget in reach: plain min-difficulty rule
+			alts = append(alts, (&Tree{Params: &cp2}).requiredBits(parent, ts))
+		}
+	}
+	var out []uint32
+	for _, a := range alts {
+		dup := a == req
+		for _, o := range out {
+			dup = dup || o == a
+		}
+		if !dup {
+			out = append(out, a)
+		}
+	}
+	return out
 }
 
 // Solve finds a nonce (and if needed bumps the coinbase-independent
@@ -626,7 +686,7 @@ func Spendable(u UtxoSet, height int32, maturity int32) []wire.OutPoint {
 	var out []wire.OutPoint
 	for _, op := range u.SortedOutpoints() {
 		c := u[op]
-		if len(c.PkScript) != 1 || c.PkScript[0] != 0x51 {
+		if !IsAnyoneCanSpend(c.PkScript) {
 			continue
 		}
 		if c.Coinbase && height-c.Height < maturity {
